@@ -1014,6 +1014,6 @@ def checks(h):
     _init()
     fold_table(h)
     partial_table(h)
-    for salt, (name, q, t) in enumerate([("general", 200, 5000), ("const", 140, 3500), ("flat", 70, 2000),
-                                         ("flags", 40, 1200), ("memory", 50, 1300)]):
+    for salt, (name, q, t) in enumerate([("general", 120, 5000), ("const", 80, 3500), ("flat", 45, 2000),
+                                         ("flags", 25, 1200), ("memory", 30, 1300)]):
         h.hyp(name, campaign(name), lambda r, name=name: run_case(h, r, name), h.scale(q, t), 1 + salt)
